@@ -59,7 +59,7 @@ Init0 ==
     hookB |-> <<>>, hookA |-> <<>>, sentRes |-> <<>>,
     sstatus |-> "connected", cst |-> "idle", closed |-> FALSE, closedErr |-> FALSE, finalDone |-> FALSE,
     conn |-> 1, alive |-> TRUE, cstatus |-> "connected", wireOf |-> 1, gen |-> 1, runst |-> "running",
-    resendQ |-> {}, resendCur |-> 0, faults |-> 0, conflicts |-> 0, resumes |-> 0 ]
+    resendQ |-> {}, resendCur |-> 0, snapDue |-> FALSE, faults |-> 0, conflicts |-> 0, resumes |-> 0 ]
 
 Init == s = Init0 /\ script = <<>>
 
@@ -247,7 +247,7 @@ WatcherFire ==
     /\ \E X \in SUBSET s.awaiting :
          /\ (~CancelIsTimeout => X = {})          \* X = senders that take the cancellation for an ack timeout (withAckTimeoutCh's random select)
          /\ s' = [Cut(s) EXCEPT !.sstatus = IF s.sstatus = "draining" THEN @ ELSE "resuming",
-                                !.runst = "stopped", !.awaiting = {}, !.gotRes = @ \cup X, !.wait = {}, !.resendQ = {}, !.resendCur = 0,
+                                !.runst = "stopped", !.awaiting = {}, !.gotRes = @ \cup X, !.wait = {}, !.resendQ = {}, !.resendCur = 0, !.snapDue = FALSE,
                                 !.aliasQ = <<>>, !.resQ = <<>>]
     /\ Quiet
 
@@ -268,9 +268,17 @@ ResumeOk ==
     /\ s.runst = "stopped" /\ s.cstatus = "connected" /\ s.alive /\ ~s.closed /\ s.sstatus = "resuming"
     /\ s' = [s EXCEPT !.wireOf = s.conn, !.bRecv = Append(@, <<"resume", s.conn>>),
                       !.sstatus = "connected", !.gen = @ + 1, !.runst = "running", !.resumes = @ + 1,
-                      !.resendQ = IF Reliable THEN s.stored ELSE {},
+                      !.resendQ = {}, !.snapDue = Reliable,
                       !.stored = IF Reliable THEN @ ELSE {}]
     /\ Say([a |-> "resumeResp", code |-> "ok"])
+
+\* run(isResume): the goroutine that retransmits lists the sent storage some time after the stream has become
+\* `connected` again - writes accepted in between are flushed, stored and sent first, and are part of the list
+\* (they are then sent a second time: a harmless duplicate that the broker has to acknowledge like any other chunk)
+TakeSnapshot ==
+    /\ Running(s) /\ s.snapDue
+    /\ s' = [s EXCEPT !.resendQ = s.stored, !.snapDue = FALSE]
+    /\ Quiet
 
 \* resume exchange cut by another failure: the stream is closed with an error (reported to the application)
 ResumeCut ==
@@ -299,7 +307,7 @@ Next ==
     \/ RouteAck \/ ProcAlias \/ ProcResult
     \/ \E c \in s.gotRes : WaiterDone(c)
     \/ CloseCall \/ CloseFlushServe \/ CloseCheck \/ CloseWait \/ CloseSend \/ CloseResp \/ FinalFlush
-    \/ LinkDown \/ Detect \/ WatcherFire \/ Redial \/ ResumeConflict \/ ResumeOk \/ ResumeCut
+    \/ LinkDown \/ Detect \/ WatcherFire \/ Redial \/ ResumeConflict \/ ResumeOk \/ ResumeCut \/ TakeSnapshot
     \/ \E q \in s.resendQ : ResendNext(q)
 
 Spec == Init /\ [][Next]_vars
@@ -309,7 +317,7 @@ SysStep == \/ \E w \in Writers : Absorb(w)
            \/ CutNeeded \/ (\E f \in Flushers : FlushServe(f)) \/ (\E c \in s.toSend : SendChunk(c))
            \/ RouteAck \/ ProcAlias \/ ProcResult \/ (\E c \in s.gotRes : WaiterDone(c))
            \/ CloseFlushServe \/ CloseCheck \/ CloseWait \/ CloseSend \/ CloseResp \/ FinalFlush
-           \/ Detect \/ WatcherFire \/ ResumeCut \/ (\E q \in s.resendQ : ResendNext(q))
+           \/ Detect \/ WatcherFire \/ ResumeCut \/ TakeSnapshot \/ (\E q \in s.resendQ : ResendNext(q))
 \* a cooperative broker acknowledges what it received on the current connection and has not acknowledged there yet
 \* (a retransmitted chunk is acknowledged again): every chunk the client is still waiting for
 AckAllUnacked == LET S == RecvdOn(s, s.conn) \cap (s.wait \cup { c[1] : c \in s.awaiting }) IN S # {} /\ BAckFair(S)
@@ -364,7 +372,7 @@ ImmediateCutsEveryWrite == (Policy = "immediate" /\ s.fl = "idle" /\ Running(s))
 StoredUntilAcked == Reliable => \A k \in 1..s.seq : k \notin s.stored => (k \in s.bAcked)
 \* C02: quiescent and healthy => every cut chunk has reached the broker
 Quiescent(x) == /\ x.alive /\ x.cstatus = "connected" /\ Running(x) /\ x.sstatus = "connected" /\ x.toSend = {}
-                /\ x.resendQ = {} /\ x.resendCur = 0 /\ x.fl = "idle"
+                /\ x.resendQ = {} /\ x.resendCur = 0 /\ ~x.snapDue /\ x.fl = "idle"
 NothingLostWhenQuiescent == (Reliable /\ Quiescent(s) /\ ~s.closedErr) => (1..s.seq) \subseteq RecvdSeqs(s)
 \* C02: reliable resume retransmits exactly what was not acknowledged
 ResendOnlyStored == s.resendQ \subseteq 1..s.seq   \* (a snapshot entry may be acknowledged meanwhile by a sender of the old generation: harmless duplicate)
